@@ -283,3 +283,13 @@ def _fresh(x):
 @nativefunc("allocated")
 def _allocated(x):
     return True
+
+
+@nativefunc("ssum")
+def _ssum(c, m, n):
+    return sum((-c[k] if m[k] else c[k]) for k in range(n))
+
+
+@nativefunc("fitval")
+def _fitval(fn, phenotype):
+    return fn.peek(phenotype) if hasattr(fn, "peek") else fn(phenotype)
